@@ -153,8 +153,9 @@ class SudokuH(Harness):
     def complete(self, st, ts):
         b = vs(st.board)
         full = all_([x >= 0 for x in b.reshape(-1)])
-        return full, [("all cells hold digits 0..8", all_([(x >= 0) & (x < N) for x in b.reshape(-1)])),
-                      ("every row, column and box contains every digit", self._solved(b))] + self.constraints(st)
+        # one obligation per unit: all 27 at once is a 27-fold pigeonhole argument (`unknown` at 120 s)
+        return full, [("all cells hold digits 0..8", all_([(x >= 0) & (x < N) for x in b.reshape(-1)]))] + \
+            [(f"{kind} {i} contains every digit", all_([any_([b[p] == d for p in u]) for d in range(N)])) for kind, i, u in UNITS] + self.constraints(st)
 
     def reward_law(self, st, act, ns, ts, legal):
         # Phi_total = [board correctly solved], paid when the episode ends.  Step level: the cheap facts; "reward ==
@@ -288,6 +289,20 @@ class SudokuH(Harness):
 
     def measure(self, st):
         return count([x >= 0 for x in vs(st.board).reshape(-1)]), N * N
+
+    def measure_local(self, st, act, ns, ts):
+        """structural horizon: measure = number of filled cells <= 81; on a MID step exactly the (empty) target cell becomes filled
+        and every other cell keeps its filled/empty status, so the measure grows by exactly 1 (frame + local delta; the global
+        form sum(S') >= sum(S) + 1 over 81 cells is `unknown` at 120 s)"""
+        b0, b1, a = vs(st.board), vs(ns.board), vs(act)
+        mid = vs(ts.step_type) == 1
+        ob = [("MID step: the target cell was empty and is filled in S'",
+               mid.implies((pick(b0, a[0], a[1]) == -1) & (pick(b1, a[0], a[1]) >= 0)))]
+        for r in range(N):
+            ob.append((f"MID step: row {r}: every cell other than the target keeps its filled/empty status",
+                       mid.implies(all_([((a[0] == r) & (a[1] == c)) | (b0[r, c] >= 0).iff(b1[r, c] >= 0) for c in range(N)]))))
+        ob.append((f"measure(S') <= structural bound {N * N}", self.measure(ns)[0] <= N * N))
+        return ob
 
     def observer(self, ns):
         return {"board": vs(ns.board), "action_mask": vs(ns.action_mask)}
